@@ -190,24 +190,32 @@ impl TryFrom<&str> for FeelDaysAndTimeDuration {
         if let Ok(days) = days_match.as_str().parse::<u64>() {
           nanoseconds += (days as i128) * NANOSECONDS_IN_DAY;
           is_valid = true;
+        } else {
+          return Err(invalid_date_and_time_duration_literal(value.to_string()));
         }
       }
       if let Some(hours_match) = captures.name("hours") {
         if let Ok(hours) = hours_match.as_str().parse::<u64>() {
           nanoseconds += (hours as i128) * NANOSECONDS_IN_HOUR;
           is_valid = true;
+        } else {
+          return Err(invalid_date_and_time_duration_literal(value.to_string()));
         }
       }
       if let Some(minutes_match) = captures.name("minutes") {
         if let Ok(minutes) = minutes_match.as_str().parse::<u64>() {
           nanoseconds += (minutes as i128) * NANOSECONDS_IN_MINUTE;
           is_valid = true;
+        } else {
+          return Err(invalid_date_and_time_duration_literal(value.to_string()));
         }
       }
       if let Some(seconds_match) = captures.name("seconds") {
         if let Ok(seconds) = seconds_match.as_str().parse::<u64>() {
           nanoseconds += (seconds as i128) * NANOSECONDS_IN_SECOND;
           is_valid = true;
+        } else {
+          return Err(invalid_date_and_time_duration_literal(value.to_string()));
         }
       }
       if let Some(fractional_match) = captures.name("fractional") {
